@@ -245,6 +245,11 @@ func newSimApp(db dbm.DB, pruning stypes.PruningOptions, gen *simGenesis) (*simA
 		updates := pos.InitGenesis(ctx, a.pk, a.ak, a.gen.Pos)
 		auth.InitGenesis(ctx, a.ak, a.gen.Auth)
 		a.gk.InitGenesis(ctx, a.gen.Gov)
+		// like an embedding application's genesis, make sure every module account exists from the start
+		// (a plain account created at a module address by an early send would otherwise shadow it)
+		for _, name := range simModuleAccounts {
+			a.ak.GetModuleAccount(ctx, name)
+		}
 		return abci.ResponseInitChain{Validators: updates}
 	})
 	a.SetBeginBlocker(func(ctx sdk.Ctx, req abci.RequestBeginBlock) abci.ResponseBeginBlock {
